@@ -9,14 +9,15 @@ What is copied, branch for branch:
 * `Bezier4P.flattening` / `Bezier3P.flattening` + `_Flattening.flatten` of `ezdxf/acc/bezier4p.pyx`,
   `bezier3p.pyx` (Cython): recursion with `RECURSION_LIMIT`  →  `recSub` + `spanLoop`.
 * `BSpline.flattening` (`ezdxf/math/bspline.py`): recursive generator `subdiv` per knot span,
-  `np.isclose` snapping → `recSub` + `spanLoop` + `knotLoop`.
+  `math.isclose` snapping → `recSub` + `spanLoop` + `knotLoop`.
 * `ConstructionEllipse.flattening` (`ezdxf/math/ellipse.py`): recursive generator `subdiv`,
-  `math.isclose` snapping, uncaught `ZeroDivisionError`  →  `recSub` + `spanLoop`.
+  `math.isclose` snapping  →  `recSub` + `spanLoop`.
 
 The curve `P : Rat → V` is a parameter of the model (any curve); the acceptance test is a parameter as
 well (`Curve.test`), the two tests that exist in the code are `midTest` (Bezier: distance from the curve
-point to the chord MIDPOINT) and `lineTest` (B-spline / ellipse: distance from the curve point to the
-infinite LINE through the chord ends, `distance_point_line_3d`).
+point to the chord MIDPOINT) and `chordTest` (B-spline / ellipse: distance from the curve point to the
+chord SEGMENT, `distance_point_segment_3d`); `lineTest` is the test these two used before the fixes
+5dd05e20e / c03295f49 (distance to the infinite LINE through the chord ends, `distance_point_line_3d`).
 Termination depends on the curve, so the stack machine and the outer loops take explicit fuel; the
 recursive variant is structurally recursive in the remaining recursion budget.
 -/
@@ -51,7 +52,8 @@ def pyIsclose (relTol absTol a b : Rat) : Bool :=
   (decide (pyAbs (b - a) ≤ pyAbs (relTol * b)) || decide (pyAbs (b - a) ≤ pyAbs (relTol * a))) ||
   decide (pyAbs (b - a) ≤ absTol)
 
-/-- `numpy.isclose(a, b)` for finite scalars: `|a - b| <= atol + rtol * |b|` (asymmetric) -/
+/-- `numpy.isclose(a, b)` for finite scalars: `|a - b| <= atol + rtol * |b|` (asymmetric); the snap test of
+    `BSpline.flattening` before its fix (kept for the record, no longer used by the model) -/
 def npIsclose (rtol atol a b : Rat) : Bool := decide (pyAbs (a - b) ≤ atol + rtol * pyAbs b)
 
 /-- `Vec3.isclose(other, rel_tol=1e-9, abs_tol=1e-12)`: all axes -/
@@ -92,13 +94,31 @@ def lineDist2 (s e m : V3) : Rat :=
   let diff := V3.dot v1 v1 - (V3.dot u v1) * (V3.dot u v1) / V3.dot u u
   if diff ≤ 0 then 0 else diff
 
-/-- B-spline / ellipse: `distance_point_line_3d(m, s, e) < distance`;
+/-- B-spline / ellipse BEFORE the fixes 5dd05e20e / c03295f49 (kept: the counterexample theorems of
+    Props/C14.lean are about it): `distance_point_line_3d(m, s, e) < distance`;
     `s.isclose(e)` raises `ZeroDivisionError`, which `BSpline.flattening` turns into `_dist = 0`
     (`catchZero = true`) and `ConstructionEllipse.flattening` lets escape (`catchZero = false`) -/
 def lineTest (relTol absTol : Rat) (catchZero : Bool) (d : Rat) (s e m : V3) : Verdict :=
   if v3Isclose relTol absTol s e then
     (if catchZero then (if sqrtLt 0 d then .accept else .split) else .raise)
   else if sqrtLt (lineDist2 s e m) d then .accept else .split
+
+/-- squared result of `distance_point_segment_3d(m, s, e)` (math/construct3d.py; used by `BSpline.flattening`
+    and `ConstructionEllipse.flattening` since the fixes 5dd05e20e / c03295f49): `direction = e - s`,
+    `v1 = m - s`; a segment of length 0 is a point; `t = direction.dot(v1) / length_square` clamped to `[0, 1]` -/
+def segDist2 (s e m : V3) : Rat :=
+  let u := e.sub s
+  let v1 := m.sub s
+  let len2 := V3.dot u u
+  if len2 = 0 then V3.dot v1 v1 else
+  let t := V3.dot u v1 / len2
+  if t ≤ 0 then V3.dot v1 v1
+  else if 1 ≤ t then V3.dist2 m e
+  else V3.dist2 m (s.add (V3.smul t u))
+
+/-- B-spline / ellipse (current code): `distance_point_segment_3d(m, s, e) < distance`; never raises -/
+def chordTest (d : Rat) (s e m : V3) : Verdict :=
+  if sqrtLt (segDist2 s e m) d then .accept else .split
 
 /-! ## inner subdivision: the two control flows that exist in the code -/
 
@@ -203,6 +223,34 @@ def ellipseFlat {V : Type} (C : Curve V) (budget : Nat) (relTol absTol : Rat)
   | .ok st => .ok st.out
   | .error x => .error x
 
+/-- Python float `x % tau` for `tau > 0` (`fmod` is exact, the result has the sign of `tau`): `x - tau * floor(x / tau)` -/
+def pyMod (x tau : Rat) : Rat := x - tau * ((x / tau).floor : Rat)
+
+/-- the parameter normalisation prelude of `ConstructionEllipse.flattening` (exact arithmetic; `tau` = the double
+    `math.tau`, `span` = `self.param_span`): `none` = `return` without yielding a vertex, else
+    `(param, end_param, delta)` as the loop receives them.  The `isclose(param, end_param)` branch is the one of fix
+    5d554b3eb (a full ellipse given as `(a, a + tau)`, `a != 0`, is no longer empty). -/
+def ellipsePrelude (relTol absTol tau start end_ span : Rat) (segments : Nat) : Option (Rat × Rat × Rat) :=
+  let delta := span / segments
+  if delta = 0 then none else
+  let param := pyMod start tau
+  let e0 := if pyIsclose relTol absTol end_ tau then tau else pyMod end_ tau
+  if pyIsclose relTol absTol param e0 then
+    (if pyIsclose relTol absTol span tau then some (param, param + tau, delta) else none)
+  else if param > e0 then some (param, e0 + tau, delta)
+  else some (param, e0, delta)
+
+/-- `ConstructionEllipse.flattening` including the prelude -/
+def ellipseFlatFull {V : Type} (C : Curve V) (budget : Nat) (relTol absTol tau start end_ span : Rat)
+    (segments : Nat) (fuel : Nat) : Except Err (List (TV V)) :=
+  match ellipsePrelude relTol absTol tau start end_ span segments with
+  | none => .ok []
+  | some (param, endParam, delta) =>
+    match spanLoop C (recSub C budget) (pyIsclose relTol absTol) delta endParam (C.P endParam) fuel
+        ⟨param, C.P param, [(param, C.P param)]⟩ with
+    | .ok st => .ok st.out
+    | .error x => .error x
+
 /-- insert into a strictly increasing list, dropping duplicates (`np.unique`) -/
 def insertUniq (a : Rat) : List Rat → List Rat
   | [] => [a]
@@ -210,13 +258,15 @@ def insertUniq (a : Rat) : List Rat → List Rat
 
 def uniq (l : List Rat) : List Rat := l.foldr insertUniq []
 
-/-- BSpline.flattening: `knots = np.unique(self.knots())`, start at `knots[0]` -/
-def bsplineFlat {V : Type} (C : Curve V) (budget : Nat) (rtol atol : Rat)
+/-- BSpline.flattening: `knots = np.unique(self.knots())`, start at `knots[0]`; the snap test is
+    `math.isclose(next_t, t1)` with tolerances `relTol`, `absTol` since fix ffb1771ad (before: `np.isclose`, whose
+    default `rtol = 1e-5` snapped at the first step for knot values ≥ 1e4, known finding C14-6) -/
+def bsplineFlat {V : Type} (C : Curve V) (budget : Nat) (relTol absTol : Rat)
     (knots : List Rat) (segments : Nat) (fuel : Nat) : Except Err (List (TV V)) :=
   match uniq knots with
   | [] => .error .fuel   -- `knots[0]` of an empty array: not reachable through the BSpline constructor
   | t :: ks =>
-    match knotLoop C (recSub C budget) (npIsclose rtol atol) segments fuel ks ⟨t, C.P t, [(t, C.P t)]⟩ with
+    match knotLoop C (recSub C budget) (pyIsclose relTol absTol) segments fuel ks ⟨t, C.P t, [(t, C.P t)]⟩ with
     | .ok st => .ok st.out
     | .error x => .error x
 
